@@ -2,6 +2,7 @@
 C12 — the server applies exactly the filter and options the user specified.
 -/
 import DtailModel.Lemmas.Command
+import DtailModel.Lemmas.GenOptions
 import DtailModel.Lemmas.OptionOrder
 import DtailModel.Lemmas.GenRegex
 namespace Dtail.C12
@@ -252,5 +253,22 @@ theorem C12_generated_wire_is_model_wire (ext : Go.Ext) (p : Go.GoString) (inver
       simp [this, flagName, joinByte, SP]
     · have : GenRegex.flagName Gen.Regex.Invert = b!"invert" := by decide
       simp [this, flagName, joinByte, SP]
+
+/-! ### Tie G: `config.DeserializeOptions` as translated from the working tree on this run -/
+
+/-- **the option decoder of the working tree is the model's decoder**: the same line context, an option map with the
+    same lookups, an error exactly where the model has one — for every option list and every behaviour of
+    `base64.DecodeString` and `strconv.Atoi` (`ExtIs`: the translated code's external functions are the model's oracles) -/
+theorem C12_generated_option_decoder_refines_model (ext : Go.Ext) (env : Env) (he : GenOptions.ExtIs ext env) (opts : List Bytes) :
+    GenOptions.Matches (deserializeOptions env opts [] {}) (Gen.Config.DeserializeOptions ext opts) :=
+  GenOptions.DeserializeOptions_refines ext env he opts
+
+/-- **… and it decodes every order of a request's options to the request** (`C12_options_any_order` carried over to the
+    translated code) -/
+theorem C12_generated_options_any_order (ext : Go.Ext) (env : Env) (he : GenOptions.ExtIs ext env) (show' : Int → Bytes)
+    (hc : IntCodec show') (r : Req) (ys : List OptionOrder.Opt) (hp : ys.Perm (OptionOrder.optsOf r)) :
+    ∃ m gl, Gen.Config.DeserializeOptions ext (ys.map (OptionOrder.render show')) = Outcome.ok (m, gl, none) ∧
+      GenOptions.ltxOf gl = r.ltx ∧ GenOptions.modesOfMap m = (r.quiet, r.plain, r.serverless) :=
+  GenOptions.generated_any_order ext env he show' hc r ys hp
 
 end Dtail.C12
